@@ -82,4 +82,254 @@ theorem KF_yaml_truncates_fraction :
     (match decode .json [] 1 (.int .int) (.num (3/2)) with | .error .type => true | _ => false) = true := by
   refine ⟨by decide +kernel, by decide +kernel⟩
 
+/-! ### whole documents: the two decoders agree on every wire-compatible (type, document) pair -/
+
+theorem mapstructureElem_flag (ty : GoTy) (j : Json) (a b : Bool) :
+    mapstructureElem ty j a = mapstructureElem ty j b := by
+  unfold mapstructureElem
+  split <;> rfl
+
+/-- a (type, document) pair on which the two decoders are proved to agree: the document has the JSON type its
+    position expects (no null, no number or boolean at a string position, integral numbers at integer
+    positions), keys bind to the same field under both binding rules, named types are plain, have a generated
+    method without anyOf, or are enums with a primitive carrier; no format-typed strings (K9) -/
+inductive WC (env : Env) : GoTy → Json → Prop where
+  | str {s} : WC env .string (.str s)
+  | bool {b} : WC env .bool (.bool b)
+  | float {q} : WC env .float64 (.num q)
+  | int {k q} : q.den = 1 → WC env (.int k) (.num q)
+  | iface {j} : j ≠ .null → WC env .iface j
+  | ptr {t j} : WC env t j → WC env (.ptr t) j
+  | slice {t xs} : (∀ k, t ≠ .int k) → (∀ n, t ≠ .named n) → (∀ x ∈ xs, WC env t x) → WC env (.slice t) (.arr xs)
+  | sliceNamed {n xs} : (∀ x ∈ xs, WC env (.named n) x) → WC env (.slice (.named n)) (.arr xs)
+  | map {t kvs} : (∀ p ∈ kvs, WC env t p.2) → WC env (.map t) (.obj kvs)
+  | strct {fs kvs} :
+      (∀ p ∈ kvs, bindKey fs p.1 = fs.find? (fun fl => fl.yamlKey = p.1)) →
+      (∀ p ∈ kvs, ∀ fld, bindKey fs p.1 = some fld → WC env fld.ty p.2) → WC env (.strct fs) (.obj kvs)
+  | namedPlain {n d j} : env.resolve 8 n = some d → d.hasMethod = false → d.ty.isFmt = false →
+      WC env d.ty j → WC env (.named n) j
+  | namedMethod {n d vs j} : env.resolve 8 n = some d → d.hasMethod = true → d.body = .plain vs true →
+      noAnyOf vs = true → WC env d.ty j → WC env (.named n) j
+  | namedEnum {n d vals wr ic cs m carrier j} : env.resolve 8 n = some d → d.hasMethod = true →
+      d.body = .enum vals wr ic cs m → enumCarrierOf d.ty = carrier →
+      (carrier = .string ∨ carrier = .float64 ∨ carrier = .bool ∨ ∃ k, carrier = .int k) →
+      WC env carrier j → WC env (.named n) j
+
+theorem WC.ne_null {env : Env} {t : GoTy} {j : Json} (h : WC env t j) : j ≠ .null := by
+  induction h with
+  | str | bool | float | int _ | slice _ _ _ | sliceNamed _ | map _ | strct _ _ => intro h; cases h
+  | iface h => exact h
+  | ptr _ ih => exact ih
+  | namedPlain _ _ _ _ ih => exact ih
+  | namedMethod _ _ _ _ _ ih => exact ih
+  | namedEnum _ _ _ _ _ _ ih => exact ih
+
+
+theorem filter_nonnull {env : Env} {t : GoTy} {xs : List Json} (h : ∀ x ∈ xs, WC env t x) :
+    xs.filter (fun x => !x.isNull) = xs := by
+  apply List.filter_eq_self.mpr
+  intro x hx
+  have := (h x hx).ne_null
+  cases x <;> simp_all [Json.isNull]
+
+theorem truncRat_den_one (q : Rat) (h : q.den = 1) : truncRat q = q.num := by
+  unfold truncRat; rw [h]; simp
+
+structure Agree (env : Env) (f : Nat) : Prop where
+  dec : ∀ ty j, WC env ty j → decode .yaml env f ty j = decode .json env f ty j
+  elems : ∀ t xs, (∀ x ∈ xs, WC env t x) → decodeElems .yaml env f t xs = decodeElems .json env f t xs
+  mapv : ∀ t (kvs : List (String × Json)), (∀ p ∈ kvs, WC env t p.2) → decodeMap .yaml env f t kvs = decodeMap .json env f t kvs
+  strct : ∀ fs (kvs : List (String × Json)) acc,
+      (∀ p ∈ kvs, bindKey fs p.1 = fs.find? (fun fl => fl.yamlKey = p.1)) →
+      (∀ p ∈ kvs, ∀ fld, bindKey fs p.1 = some fld → WC env fld.ty p.2) →
+      decodeStruct .yaml env f fs kvs acc = decodeStruct .json env f fs kvs acc
+  meth : ∀ (d : Decl) vs j, d.body = .plain vs true → noAnyOf vs = true → WC env d.ty j →
+      runMethod .yaml env f d j = runMethod .json env f d j
+  enum : ∀ (d : Decl) vals wr ic cs m carrier j, d.body = .enum vals wr ic cs m →
+      enumCarrierOf d.ty = carrier →
+      (carrier = .string ∨ carrier = .float64 ∨ carrier = .bool ∨ ∃ k, carrier = .int k) →
+      WC env carrier j → runMethod .yaml env f d j = runMethod .json env f d j
+
+theorem agree_zero (env : Env) : Agree env 0 := by
+  refine ⟨?_, ?_, ?_, ?_, ?_, ?_⟩ <;> intros <;> simp [decode, decodeElems, decodeMap, decodeStruct, runMethod]
+
+
+theorem step_elems {env : Env} {f : Nat} (ih : Agree env f) :
+    ∀ t xs, (∀ x ∈ xs, WC env t x) → decodeElems .yaml env (f + 1) t xs = decodeElems .json env (f + 1) t xs := by
+  intro t xs h
+  cases xs with
+  | nil => rfl
+  | cons x xs =>
+    simp only [decodeElems]
+    rw [ih.dec t x (h x (by simp)), ih.elems t xs (fun y hy => h y (by simp [hy]))]
+
+theorem step_map {env : Env} {f : Nat} (ih : Agree env f) :
+    ∀ t (kvs : List (String × Json)), (∀ p ∈ kvs, WC env t p.2) →
+      decodeMap .yaml env (f + 1) t kvs = decodeMap .json env (f + 1) t kvs := by
+  intro t kvs h
+  cases kvs with
+  | nil => rfl
+  | cons p rest =>
+    obtain ⟨k, x⟩ := p
+    simp only [decodeMap]
+    rw [ih.dec t x (h (k, x) (by simp)), ih.mapv t rest (fun y hy => h y (by simp [hy]))]
+
+theorem step_strct {env : Env} {f : Nat} (ih : Agree env f) :
+    ∀ fs (kvs : List (String × Json)) acc,
+      (∀ p ∈ kvs, bindKey fs p.1 = fs.find? (fun fl => fl.yamlKey = p.1)) →
+      (∀ p ∈ kvs, ∀ fld, bindKey fs p.1 = some fld → WC env fld.ty p.2) →
+      decodeStruct .yaml env (f + 1) fs kvs acc = decodeStruct .json env (f + 1) fs kvs acc := by
+  intro fs kvs acc hb hw
+  cases kvs with
+  | nil => rfl
+  | cons p rest =>
+    obtain ⟨k, x⟩ := p
+    have hbk := hb (k, x) (by simp)
+    have hrest := fun acc' => ih.strct fs rest acc' (fun y hy => hb y (by simp [hy])) (fun y hy => hw y (by simp [hy]))
+    simp only [decodeStruct]
+    simp only at hbk
+    rw [← hbk]
+    cases hbind : bindKey fs k with
+    | none => simp only; exact hrest acc
+    | some fld =>
+      simp only
+      rw [ih.dec fld.ty x (hw (k, x) (by simp) fld hbind)]
+      cases decode .json env f fld.ty x with
+      | error e => rfl
+      | ok v => simp only [bind, Except.bind]; exact hrest _
+
+
+theorem step_meth {env : Env} {f : Nat} (ih : Agree env f) :
+    ∀ (d : Decl) vs j, d.body = .plain vs true → noAnyOf vs = true → WC env d.ty j →
+      runMethod .yaml env (f + 1) d j = runMethod .json env (f + 1) d j := by
+  intro d vs j hb hn hw
+  simp only [runMethod, hb]
+  simp only [fun raw => runBefore_wire_independent env d.name raw j f vs hn, ih.dec d.ty j hw,
+    runAfter_wire_independent]
+  have e1 : (Wire.yaml = Wire.yaml) = True := by simp
+  have e2 : (Wire.json = Wire.yaml) = False := by simp
+  simp only [e1, e2, mapstructureElem_flag _ _ (decide True) (decide False)]
+
+
+theorem enumEq_wire (ic : Bool) (carrier : GoTy) (v : GoVal) (e : Json)
+    (hv : ∀ j, v ≠ .iface j) : enumEq .yaml ic carrier v e = enumEq .json ic carrier v e := by
+  unfold enumEq
+  cases v <;> cases e <;> simp_all
+
+/-- decoding into a primitive carrier never yields an interface value -/
+theorem prim_decode_not_iface {env : Env} {w : Wire} {f : Nat} {carrier : GoTy} {j : Json} {v : GoVal}
+    (hc : carrier = .string ∨ carrier = .float64 ∨ carrier = .bool ∨ ∃ k, carrier = .int k)
+    (h : decode w env f carrier j = .ok v) : ∀ x, v ≠ .iface x := by
+  intro x hx
+  subst hx
+  cases f with
+  | zero => simp [decode] at h
+  | succ f =>
+    rcases hc with rfl | rfl | rfl | ⟨k, rfl⟩ <;> cases w <;> cases j <;>
+      simp [decode, zeroOf] at h <;>
+      first
+        | done
+        | (split at h <;> first | (simp at h; done) | (split at h <;> simp at h))
+
+
+theorem any_enumEq_wire (vals : List Json) (ic : Bool) (carrier : GoTy) (v : GoVal) (hv : ∀ j, v ≠ .iface j) :
+    vals.any (enumEq .yaml ic carrier v) = vals.any (enumEq .json ic carrier v) := by
+  induction vals with
+  | nil => rfl
+  | cons e rest ih => simp only [List.any_cons, ih, enumEq_wire ic carrier v e hv]
+
+theorem step_enum {env : Env} {f : Nat} (ih : Agree env f) :
+    ∀ (d : Decl) vals wr ic cs m carrier j, d.body = .enum vals wr ic cs m →
+      enumCarrierOf d.ty = carrier →
+      (carrier = .string ∨ carrier = .float64 ∨ carrier = .bool ∨ ∃ k, carrier = .int k) →
+      WC env carrier j → runMethod .yaml env (f + 1) d j = runMethod .json env (f + 1) d j := by
+  intro d vals wr ic cs m carrier j hb hcar hc hw
+  simp only [runMethod, hb, hcar]
+  rw [ih.dec carrier j hw]
+  cases hd : decode .json env f carrier j with
+  | error e => rfl
+  | ok v =>
+    simp only
+    rw [any_enumEq_wire vals ic carrier v (prim_decode_not_iface hc hd)]
+
+
+theorem step_dec {env : Env} {f : Nat} (ih : Agree env f) :
+    ∀ ty j, WC env ty j → decode .yaml env (f + 1) ty j = decode .json env (f + 1) ty j := by
+  intro ty j h
+  cases h with
+  | str => simp [decode]
+  | bool => simp [decode]
+  | float => simp [decode]
+  | @int k q hq => simp [decode, truncRat_den_one q hq, hq]
+  | iface hn => cases j <;> simp_all [decode]
+  | @ptr t j hw =>
+    have hn := hw.ne_null
+    cases j <;> simp_all [decode] <;> rw [ih.dec _ _ hw]
+  | @slice t xs hk hnm hw =>
+    have hf := filter_nonnull hw
+    cases t with
+    | int k => exact absurd rfl (hk k)
+    | named n => exact absurd rfl (hnm n)
+    | _ => simp only [decode, hf, ite_self]; rw [ih.elems _ _ hw]
+  | @sliceNamed n xs hw =>
+    have hf := filter_nonnull hw
+    simp only [decode, hf, ite_self]
+    rw [ih.elems _ _ hw]
+  | @map t kvs hw => simp only [decode]; rw [ih.mapv t kvs hw]
+  | @strct fs kvs hb hw => simp only [decode]; rw [ih.strct fs kvs _ hb hw]
+  | @namedPlain n d j hres hm hfmt hw =>
+    have hn := hw.ne_null
+    cases j <;> simp_all [decode] <;> rw [ih.dec _ _ hw]
+  | @namedMethod n d vs j hres hm hb hna hw =>
+    have hn := hw.ne_null
+    cases j <;> simp_all [decode] <;> exact ih.meth d vs _ hb hna hw
+  | @namedEnum n d vals wr ic cs m carrier j hres hm hb hcar hc hw =>
+    have hn := hw.ne_null
+    cases j <;> simp_all [decode] <;> exact ih.enum d vals wr ic cs m carrier _ hb hcar hc hw
+
+
+theorem agree_all (env : Env) : ∀ f, Agree env f := by
+  intro f
+  induction f with
+  | zero => exact agree_zero env
+  | succ f ih =>
+    exact ⟨step_dec ih, step_elems ih, step_map ih, step_strct ih, step_meth ih, step_enum ih⟩
+
+/-- **C17, whole documents**: for ANY generated program (any declaration environment), any type and any
+    document of any size and depth that is wire-compatible with it (`WC`), `UnmarshalYAML` and `UnmarshalJSON`
+    return the same result — the same decoded value, or the same error — whatever the fuel -/
+theorem yaml_json_agree (env : Env) (ty : GoTy) (j : Json) (h : WC env ty j) :
+    ∀ fuel, decode .yaml env fuel ty j = decode .json env fuel ty j :=
+  fun fuel => (agree_all env fuel).dec ty j h
+
+/-- in particular the verdicts agree -/
+theorem yaml_json_same_verdict (env : Env) (ty : GoTy) (j : Json) (h : WC env ty j) (fuel : Nat) :
+    (decode .yaml env fuel ty j).isOk = (decode .json env fuel ty j).isOk := by
+  rw [yaml_json_agree env ty j h fuel]
+
+/-- non-vacuity: a struct with an integer and a string list, and a document for it, are wire-compatible -/
+example :
+    let fa : Field := { name := "A", jsonName := "a", ty := .int .int, tags := "", jsonKey := "a", yamlKey := "a", omitEmpty := false, comment := "" }
+    let fx : Field := { name := "Xs", jsonName := "xs", ty := .slice .string, tags := "", jsonKey := "xs", yamlKey := "xs", omitEmpty := true, comment := "" }
+    WC [] (.strct [fa, fx]) (.obj [("a", .num 5), ("xs", .arr [.str "p", .str "q"])]) := by
+  intro fa fx
+  have ba : bindKey [fa, fx] "a" = some fa := by simp [bindKey, fa, fx]
+  have bx : bindKey [fa, fx] "xs" = some fx := by simp [bindKey, fa, fx]
+  refine .strct ?_ ?_
+  · intro p hp
+    simp at hp
+    rcases hp with rfl | rfl
+    · rw [ba]; simp [fa, fx]
+    · rw [bx]; simp [fa, fx]
+  · intro p hp fld hb
+    simp at hp
+    rcases hp with rfl | rfl
+    · rw [ba] at hb; cases hb; exact .int rfl
+    · rw [bx] at hb; cases hb
+      refine .slice (by intro k h; cases h) (by intro n h; cases h) ?_
+      intro x hx
+      simp at hx
+      rcases hx with rfl | rfl <;> exact .str
+
+
 end GJS.Props.C17
